@@ -393,13 +393,13 @@ class TooBig(Exception):
 def _guard(op, a, b):
     if isinstance(op, ast.Mult):
         for x, y in ((a, b), (b, a)):
-            if isinstance(x, (str, list, tuple)) and isinstance(y, int) and y > 5000:
+            if isinstance(x, (str, bytes, list, tuple)) and isinstance(y, int) and (y > 5000 or len(x) * y > 200000):
                 raise TooBig()
     if isinstance(op, (ast.Pow, ast.LShift)) and isinstance(b, int) and (b > 512 or b < -512):
         raise TooBig()
     if isinstance(a, int) and isinstance(b, int) and (a.bit_length() > 4096 or b.bit_length() > 4096):
         raise TooBig()
-    if isinstance(op, ast.Add) and isinstance(a, (str, list, tuple)) and len(a) > 20000:
+    if isinstance(op, ast.Add) and isinstance(a, (str, bytes, list, tuple)) and len(a) > 20000:
         raise TooBig()
 
 
